@@ -66,7 +66,9 @@ def method_probes(i, m):
                 PRELUDE + "fn main() { %s let r = %s; c.purge(); touch(r); }\n" % (setup, ce)))
     out.append(("m%d_p2" % i, "outlive-the-cache", True,
                 PRELUDE + "fn main() { let r; { %s r = %s; } touch(r); }\n" % (setup, ce)))
-    if m["recv"] == "refMut" or m["ty"] == "&mut RawLRU":
+    if m["recv"] == "refMut" or m["ty"] == "&mut RawLRU" or m.get("excl_out"):
+        # also for a result that gives exclusive access (`&mut V`, a `*IterMut`) whatever the receiver looks like: two
+        # of them alive at once must be rejected
         out.append(("m%d_p3" % i, "two-live-results-of-a-mut-method", True,
                     PRELUDE + "fn main() { %s let a = %s; let b = %s; touch(a); touch(b); }\n" % (setup, ce, ce)))
     out.append(("m%d_ok" % i, "control", False,
@@ -192,7 +194,8 @@ def check_C19(pid, tier, seed, chk):
             probes.append(dict(name=name, what=what, must_reject=must_reject, src=src, row=("I", i)))
     if tier == "quick":
         # every row keeps its hold-across-mutation probe and its control; the other shapes for every third row
-        probes = [pb for pb in probes if pb["name"].endswith(("_p1", "_ok", "_bad", "_sendonly")) or pb["row"][1] % 3 == 0]
+        probes = [pb for pb in probes if pb["name"].endswith(("_p1", "_ok", "_bad", "_sendonly")) or pb["row"][1] % 3 == 0
+                  or (pb["name"].endswith("_p3") and pb["row"][0] == "M" and methods[pb["row"][1]].get("excl_out"))]
 
     def run(pb):
         rc, codes, err = compile_probe(wdir, rlib, deps, pb["name"], pb["src"])
